@@ -5,7 +5,9 @@ and an event log (calls, in-place effects, guards, with-regions, loops).  No rep
 is imported or executed.
 """
 import ast
+import dataclasses
 import math
+import re
 from fractions import Fraction
 
 from .source import FuncInfo, Program
@@ -121,6 +123,18 @@ class Partial:
         return f"<{self.kind} {self.target!r}>"
 
 
+PASS_DECORATORS = {"property", "cached_property", "staticmethod", "classmethod", "abstractmethod", "overload", "no_type_check", "lru_cache", "cache",
+                   "torch.enable_grad()", "torch.no_grad()", "torch.inference_mode()", "final"}
+
+EFFECT_EVENTS = {"inplace", "obj_setattr", "dict_store", "setattr", "store", "register_buffer", "list_append", "delete", "class_setattr", "backward",
+                 "module_call", "ext_call", "opaque_call", "abstract_call", "with_enter"}
+
+
+class EagerGen(list):
+    """values of a generator whose body was run at creation; `effects` = kinds of the effect events its body logged"""
+    effects = ()
+
+
 class MapList:
     """[body for elem in src]"""
 
@@ -167,6 +181,7 @@ class Interp:
             self.n_calls = 0
         self.loop_stack = []
         self.loop_kinds = []
+        self.memo = {}   # functools.lru_cache tables: qualified name -> [(key, value)]
 
     # ------------------------------------------------------------------ driver
     def explore(self, target, args=(), kwargs=None, self_obj=None, max_paths=64):
@@ -210,6 +225,24 @@ class Interp:
         if fi is not None and "abstractmethod" in fi.decorators:
             self.ev("abstract_call", callee=fi.qualname, recv=self_obj)
             return Op("abstract", (fi.qualname, Sym(self_obj.name) if isinstance(self_obj, Obj) else self_obj) + tuple(args), kwargs)
+        if fi is not None and closure is None:
+            custom = [d for d in fi.decorators if d not in PASS_DECORATORS]
+            if custom:
+                # a decorator of the repository's own: the name denotes whatever the decorator returned
+                f_ = self.decorated_value(fi)
+                is_m = fi.cls is not None and not fi.is_staticmethod
+                return self.call_value(f_, ([self_obj] if is_m else []) + list(args), kwargs)
+            if "lru_cache" in fi.decorators or "cache" in fi.decorators:
+                key = (self_obj, tuple(args), tuple(sorted(kwargs.items(), key=lambda kv: kv[0])))
+                table = self.memo.setdefault(fi.qualname, [])
+                for k_, v_ in table:
+                    if self.same_memo_key(k_, key):
+                        self.ev("memo_hit", callee=fi.qualname, key=key)
+                        return v_
+                raw = dataclasses.replace(fi, decorators=[d for d in fi.decorators if d not in ("lru_cache", "cache")])
+                v_ = self.call_function(raw, args, kwargs, self_obj=self_obj)
+                table.append((key, v_))
+                return v_
         node = fi.node if fi is not None else closure.node
         module = fi.module if fi is not None else closure.module
         if self.depth >= self.max_depth:
@@ -273,7 +306,13 @@ class Interp:
                 return ret[0]
             is_gen = any(isinstance(n, (ast.Yield, ast.YieldFrom)) for n in ast.walk(node))
             if is_gen:
+                shape = self.loop_generator_shape(node)
+                if shape is not None:
+                    # `<setup>; while True: <step>; yield <value>`: nothing runs until the first next(); every next() runs one step
+                    ret[0] = Obj("generator", qual.rsplit(".", 1)[-1], {"env": env, "started": False, "shape": shape, "qual": qual}, {"generator"})
+                    return ret[0]
                 env["__yield__"] = []
+                n_ev = len(self.events)
             try:
                 self.exec_block(node.body, env)
             except _Return as r:
@@ -281,11 +320,84 @@ class Interp:
                     ret[0] = r.value
                     return r.value
             if is_gen:
-                ret[0] = env["__yield__"]
-                return env["__yield__"]
+                # the body of any other generator is run where the generator is created; that is the wrong time when the generator is kept
+                # for later and its body has effects, so such a result is marked and may only be consumed on the spot (see exec_stmt)
+                effects = [e_["kind"] for e_ in self.events[n_ev:] if e_["kind"] in EFFECT_EVENTS]
+                ret[0] = EagerGen(env["__yield__"])
+                ret[0].effects = effects
+                return ret[0]
             return None
         finally:
             self.ev("exit", callee=qual, value=ret[0])
+            self.stack.pop()
+            self.depth -= 1
+
+    def decorated_value(self, fi):
+        """the value a decorated `def` binds: the decorators of the repository's own applied, innermost first, to the undecorated function"""
+        cache = self.prog.__dict__.setdefault("_decorated", {})
+        if fi.qualname in cache:
+            return cache[fi.qualname]
+        v = dataclasses.replace(fi, decorators=[d for d in fi.decorators if d in PASS_DECORATORS])
+        env = {"__module__": fi.module, "__parent__": None, "__cls__": fi.cls}
+        n_ev = len(self.events)
+        for d in reversed(fi.node.decorator_list):
+            if self.prog._deco(d) in PASS_DECORATORS:
+                continue
+            v = self.call_value(self.eval(d, env), [v], {}, d)
+        del self.events[n_ev:]   # decoration happens at import time, not in the call that is being followed
+        cache[fi.qualname] = v
+        return v
+
+    @staticmethod
+    def same_memo_key(a, b):
+        """functools.lru_cache key comparison: objects by identity, plain values by equality; two tensors only when they are the same term"""
+        if isinstance(a, (tuple, list)) and isinstance(b, (tuple, list)):
+            return len(a) == len(b) and all(Interp.same_memo_key(x, y) for x, y in zip(a, b))
+        if isinstance(a, Obj) or isinstance(b, Obj):
+            return a is b
+        if isinstance(a, Term) or isinstance(b, Term):
+            return isinstance(a, Term) and isinstance(b, Term) and a == b
+        try:
+            return type(a) is type(b) and a == b
+        except Exception:
+            return a is b
+
+    @staticmethod
+    def loop_generator_shape(node):
+        """(setup statements, step statements, yielded expression) of a generator `setup; while True: step; yield value`, else None"""
+        body = [s_ for s_ in node.body if not (isinstance(s_, ast.Expr) and isinstance(s_.value, ast.Constant))]
+        if not body or not isinstance(body[-1], ast.While):
+            return None
+        loop = body[-1]
+        if not (isinstance(loop.test, ast.Constant) and loop.test.value is True and not loop.orelse and loop.body):
+            return None
+        yields = [n for n in ast.walk(node) if isinstance(n, (ast.Yield, ast.YieldFrom))]
+        last = loop.body[-1]
+        if len(yields) != 1 or not (isinstance(last, ast.Expr) and last.value is yields[0] and isinstance(yields[0], ast.Yield)):
+            raise Unsupported("generator with an endless loop whose single yield is not the last statement of the loop")
+        if any(isinstance(n, (ast.Break, ast.Return)) for n in ast.walk(loop)):
+            raise Unsupported("generator with an endless loop that is left by break/return")
+        return body[:-1], loop.body[:-1], yields[0].value
+
+    def generator_next(self, g, node):
+        """one next() of a generator of the shape above: the setup on the first call, then one step, then the yielded value"""
+        setup, step, value = g.attrs["shape"]
+        env, qual = g.attrs["env"], g.attrs["qual"]
+        if self.depth >= self.max_depth:
+            raise Unsupported("inline depth exceeded at " + qual)
+        self.depth += 1
+        self.stack.append(qual)
+        self.ev("enter", callee=qual)
+        out = [None]
+        try:
+            if not g.attrs["started"]:
+                g.attrs["started"] = True
+                self.exec_block(setup, env)
+            self.exec_block(step, env)
+            out[0] = self.eval(value, env) if value is not None else None
+            return out[0]
+        finally:
+            self.ev("exit", callee=qual, value=out[0])
             self.stack.pop()
             self.depth -= 1
 
@@ -307,6 +419,10 @@ class Interp:
         if isinstance(f, BoundMethod):
             self.ev("call", callee=f.fi.qualname, recv=f.obj, args=args, kwargs=dict(kwargs), node=node, bound=self.bind_names(f.fi, args, kwargs, not f.fi.is_staticmethod))
             return self.call_function(f.fi, args, kwargs, self_obj=f.obj)
+        if isinstance(f, FuncInfo) and f.cls is not None and not f.is_staticmethod and not f.is_classmethod and args:
+            # a function taken off its class (Class.method, or the undecorated method a decorator was handed): self is the first argument
+            self.ev("call", callee=f.qualname, recv=args[0], args=args[1:], kwargs=dict(kwargs), node=node, bound=self.bind_names(f, args[1:], kwargs, True))
+            return self.call_function(f, list(args[1:]), kwargs, self_obj=args[0])
         if isinstance(f, FuncInfo):
             self.ev("call", callee=f.qualname, recv=None, args=args, kwargs=dict(kwargs), node=node, bound=self.bind_names(f, args, kwargs, False))
             return self.call_function(f, args, kwargs)
@@ -333,6 +449,13 @@ class Interp:
                 return tuple(base_[k_] if isinstance(base_, (list, tuple, dict)) else Op("getitem", (base_, k_)) for k_ in f.args)
             if f.kind == "attrgetter":
                 return self.getattr_value(args[0], f.args[0], node)
+            if f.kind == "memo_clear":
+                self.memo.pop(f.target, None)
+                return None
+            if f.kind == "identity":
+                return args[0]
+        if isinstance(f, ExtRef) and f.name.startswith("builtins.") and f.name[9:] in BUILTINS:
+            return self.call_builtin(f.name[9:], args, kwargs, node, None)   # a builtin reached as a value (partial(next, it), map(len, xs))
         if isinstance(f, ExtRef):
             return self.call_ext(f.name, args, kwargs, node)
         if isinstance(f, Obj):
@@ -460,6 +583,8 @@ class Interp:
                 elif a_ is not None:
                     raise Unsupported(f"_parse_to argument {a_!r}")
             return (dev, dt, False, None)
+        if name == "functools.wraps":
+            return Partial("identity", None)   # copies name and docstring onto the wrapper: the wrapper itself is returned
         if name == "functools.partial":
             return Partial("partial", args[0], args[1:], kwargs)
         if name == "functools.reduce":
@@ -605,6 +730,8 @@ class Interp:
                 self.rebind(c.func.value, Op(v.op[:-1], v.args, v.kw), env, st)
         elif isinstance(st, ast.Assign):
             v = self.eval(st.value, env)
+            if isinstance(v, EagerGen) and v.effects:
+                raise Unsupported(f"a generator whose body has effects ({', '.join(sorted(set(v.effects)))}) is stored before it is consumed")
             for t in st.targets:
                 self.assign(t, v, env, st)
         elif isinstance(st, ast.AnnAssign):
@@ -679,8 +806,52 @@ class Interp:
                     env.pop(t.id, None)
         elif isinstance(st, (ast.Import, ast.ImportFrom)):
             pass
+        elif isinstance(st, ast.Try):
+            self.exec_try(st, env)
         else:
             raise Unsupported("statement " + type(st).__name__)
+
+    EXC_PARENTS = {"KeyError": "LookupError", "IndexError": "LookupError", "LookupError": "Exception", "ValueError": "Exception", "TypeError": "Exception",
+                   "AttributeError": "Exception", "RuntimeError": "Exception", "NotImplementedError": "RuntimeError", "AssertionError": "Exception",
+                   "StopIteration": "Exception", "ZeroDivisionError": "ArithmeticError", "ArithmeticError": "Exception", "Exception": "BaseException"}
+
+    def exec_try(self, st, env):
+        """try/except/else/finally over the exceptions the interpreter itself models (a raise statement, a missing key or index, a missing
+        attribute): the handler whose class is the raised class or one of its bases runs; anything else propagates."""
+        try:
+            try:
+                self.exec_block(st.body, env)
+            except PathRaises as pr:
+                m = re.match(r"[A-Za-z_][A-Za-z_0-9.]*", str(pr.exc))
+                raised = m.group(0).rsplit(".", 1)[-1] if m else ""
+                chain = [raised]
+                while chain[-1] in self.EXC_PARENTS:
+                    chain.append(self.EXC_PARENTS[chain[-1]])
+                if raised not in self.EXC_PARENTS:
+                    raise Unsupported(f"try/except around an exception of unknown class: {pr.exc}")
+                for h in st.handlers:
+                    names = []
+                    if h.type is not None:
+                        for t in (h.type.elts if isinstance(h.type, ast.Tuple) else [h.type]):
+                            names.append(ast.unparse(t).rsplit(".", 1)[-1])
+                    if h.type is None or any(n in chain for n in names):
+                        if h.name:
+                            env[h.name] = Obj("builtins." + raised, "exc", {"args": (str(pr.exc),)})
+                        self.ev("except", exc=str(pr.exc), node=h)
+                        try:
+                            self.exec_block(h.body, env)
+                        except PathRaises as pr2:
+                            if pr2.exc == "re-raise":
+                                raise pr
+                            raise
+                        break
+                else:
+                    raise
+            else:
+                self.exec_block(st.orelse, env)
+        finally:
+            if st.finalbody:
+                self.exec_block(st.finalbody, env)
 
     def truth(self, c, node, env):
         """Decide a branch condition; symbolic -> guard (raise-only body) or decision."""
@@ -762,6 +933,8 @@ class Interp:
             e = e.get("__parent__")
         for o in Obj.REGISTRY:
             cells.append(o.attrs)
+            if o.cls == "generator":
+                cells.append(o.attrs["env"])
         lists = []
         for c in cells:
             for v in c.values():
@@ -1184,7 +1357,15 @@ class Interp:
                 return base[idx]
             return Op("getitem", (tuple(base), idx))
         if isinstance(base, dict):
-            if isinstance(idx, Term) or idx not in base:
+            if isinstance(idx, Term):
+                return Op("getitem", (Sym("dict"), idx))
+            try:
+                missing = idx not in base
+            except TypeError:
+                missing = True
+            if missing:
+                if isinstance(idx, (str, int, bool, float)) or idx is None:
+                    raise PathRaises(f"KeyError: {idx!r}", e)
                 return Op("getitem", (Sym("dict"), idx))
             return base[idx]
         if isinstance(base, Term):
@@ -1204,6 +1385,13 @@ class Interp:
         return self.getattr_value(o, e.attr, e)
 
     def getattr_value(self, o, attr, node=None, call=False):
+        if isinstance(o, (BoundMethod, FuncInfo)) and attr in ("cache_clear", "__wrapped__", "__name__"):
+            fi_ = o.fi if isinstance(o, BoundMethod) else o
+            if attr == "__name__":
+                return fi_.node.name
+            if attr == "cache_clear" and ("lru_cache" in fi_.decorators or "cache" in fi_.decorators):
+                return Partial("memo_clear", fi_.qualname)
+            raise Unsupported(f"{attr} of {fi_.qualname}")
         if isinstance(o, Obj):
             return self.getattr_obj(o, attr, node)
         if isinstance(o, Term):
@@ -1351,6 +1539,21 @@ class Interp:
                 c = self.eval(e.args[0], env)
                 cls_ctx = c.qualname if isinstance(c, ClassRef) else (c.name if isinstance(c, ExtRef) else cls_ctx)
             return SuperRef(self_obj, cls_ctx)
+        if (isinstance(e.func, ast.Name) and e.func.id == "next" and e.args and isinstance(e.args[0], ast.GeneratorExp) and not e.keywords
+                and len(e.args[0].generators) == 1 and isinstance(self.lookup("next", env), ExtRef)):
+            # next(<elt> for t in <concrete sequence> if <cond>): the generator is consumed lazily, so the conditions after the first
+            # hit are never evaluated (no decision is recorded for them)
+            ge, g = e.args[0], e.args[0].generators[0]
+            it = self.strip_iter(self.eval(g.iter, env))
+            if isinstance(it, (list, tuple, range, dict)):
+                sub = {"__module__": env["__module__"], "__parent__": env, "__cls__": env.get("__cls__"), "__self__": env.get("__self__")}
+                for x in it:
+                    self.assign(g.target, x, sub, e)
+                    if all(self.truth(self.eval(c, sub), e, sub) for c in g.ifs):
+                        return self.eval(ge.elt, sub)
+                if len(e.args) > 1:
+                    return self.eval(e.args[1], env)
+                raise PathRaises("StopIteration", e)
         args = []
         for a in e.args:
             if isinstance(a, ast.Starred):
@@ -1387,6 +1590,21 @@ class Interp:
                 need = len([n_ for n_ in names_[:len(names_) - len(fi_.node.args.defaults)] if n_ not in kwargs]) - len([a_ for a_ in args if not (isinstance(a_, Op) and a_.op == "star")])
                 stars = [a_ for a_ in args if isinstance(a_, Op) and a_.op == "star"]
                 if len(stars) == 1 and need >= 0:
+                    out_ = []
+                    for a_ in args:
+                        if isinstance(a_, Op) and a_.op == "star":
+                            out_.extend(Op("getitem", (a_.args[0], k_)) for k_ in range(need))
+                        else:
+                            out_.append(a_)
+                    args = out_
+        if any(isinstance(a_, Op) and a_.op == "star" for a_ in args) and isinstance(f, ClassRef) and f.qualname in self.prog.classes:
+            # Record(*t, field=v) with a symbolic sequence t: the sequence fills the fields that are still open (those without a default)
+            spec = self.namedtuple_fields(f.qualname) or self.dataclass_fields(f.qualname)
+            stars = [a_ for a_ in args if isinstance(a_, Op) and a_.op == "star"]
+            if spec is not None and len(stars) == 1:
+                names_, defaults_ = spec
+                need = len([n_ for n_ in names_ if n_ not in kwargs and n_ not in defaults_]) - (len(args) - 1)
+                if need >= 0:
                     out_ = []
                     for a_ in args:
                         if isinstance(a_, Op) and a_.op == "star":
@@ -1635,6 +1853,10 @@ class Interp:
             return None
         if name == "iter":
             return a[0]
+        if name == "next" and isinstance(a[0], Obj) and a[0].cls == "generator" and len(a) == 1:
+            return self.generator_next(a[0], node)
+        if name == "next":
+            raise Unsupported("next() on anything but a generator expression over a concrete sequence")
         if name == "dict":
             return dict(*a, **kwargs)
         if name == "id":
@@ -1809,7 +2031,7 @@ TORCH_DTYPES = {"float16", "float32", "float64", "bfloat16", "half", "float", "d
 BUILTINS = {"id", "callable", "staticmethod", "classmethod", "len", "range", "list", "tuple", "map", "zip", "any", "all", "isinstance", "issubclass", "hasattr", "getattr",
             "setattr", "int", "float", "str", "repr", "abs", "min", "max", "sum", "round", "sorted", "reversed", "print",
             "iter", "dict", "type", "super", "ValueError", "TypeError", "RuntimeError", "KeyError", "AttributeError",
-            "DeprecationWarning", "bytes", "bool", "object", "NotImplementedError", "AssertionError"}
+            "DeprecationWarning", "bytes", "bool", "object", "NotImplementedError", "AssertionError", "next", "StopIteration", "IndexError", "Exception"}
 
 
 # ---------------------------------------------------------------------- plumbing summaries
